@@ -93,9 +93,23 @@ impl Property for C02 {
         for i in idxs.into_iter().take(k) {
             real.nodes.push(sc.world.stubs[i].addr);
         }
+        // a contact that was restarted under a new id on the same address: the node still holds it
+        // under the old id (close to the target), its answers now carry the new one (far away).
+        // Everybody names it by its real, new id, so the premise holds; the stale entry must not
+        // cost an announce slot.
+        let ghost = n >= 10 && real.nodes.len() >= 1 && rng.chance(1, 6);
+        if ghost {
+            let gi = sc.world.stubs.iter().position(|s| s.addr == real.nodes[0]).unwrap();
+            let old = id_with_lcp(&ih, rng.range(60, 100) as usize, &mut rng);
+            let mut far = ih;
+            far[0] ^= 0x80;
+            sc.world.stubs[gi].id = id_with_lcp(&far, 8, &mut rng);
+            sc.world.stubs[gi].old_id = Some((30_000, old));
+            sc.params.insert("ghost".into(), 1);
+        }
         sc.reals.push(real);
         sc.at(0, Op::Start { node: 0 });
-        let b = sc.at(0, Op::Bootstrapped { node: 0 });
+        let b = if ghost { sc.at(60_000, Op::Nop) } else { sc.at(0, Op::Bootstrapped { node: 0 }) };
         let announce = rng.chance(3, 4);
         // 1 run in 5: the caller does not read the stream to the end (fire-and-forget announce,
         // "first peer is enough"); the lookup, and with it the announce, must be carried out all the same
@@ -147,6 +161,9 @@ impl Property for C02 {
         if steps.len() > 1 {
             v.hit("back_to_back_searches");
         }
+        if sc.param("ghost") != 0 {
+            v.hit("contact_restarted_under_new_id");
+        }
         let mut nontrivial = false;
         let mut sample = serde_json::Value::Null;
         for (k, sstep) in steps.iter().enumerate() {
@@ -174,7 +191,7 @@ impl Property for C02 {
         vec!["stubs answer every query with the 8 nodes truly closest to the target among all stubs (with or without themselves), per the property's premise"]
     }
     fn required_reach(&self) -> Vec<&'static str> {
-        vec!["iterative_or_endgame_queries", "more_than_20_queries", "network_smaller_than_8", "network_200_plus", "peers_yielded", "stream_dropped_by_caller", "back_to_back_searches", "follow_up_search_judged"]
+        vec!["iterative_or_endgame_queries", "more_than_20_queries", "network_smaller_than_8", "network_200_plus", "peers_yielded", "stream_dropped_by_caller", "back_to_back_searches", "follow_up_search_judged", "contact_restarted_under_new_id"]
     }
 }
 
@@ -349,4 +366,4 @@ impl C02 {
     }
 }
 
-const RULE: &str = "one real searcher (read-only or serving, announce port set or not) and 1..1000 ideal-Kademlia stubs (ids uniform / clustered around the target / clustered around the searcher), each holding 0..5 globally unique peers; a random non-empty subset as bootstrap contacts; one-way latency <= 450 ms, no message faults; the search is issued after bootstrap; in 1 run of 3 one or two further searches for other info-hashes follow 0 ms .. 31 s after the previous one ended; in 1 run of 5 the caller drops the stream early (at once, after 1..1499 ms, after 1..3 items) or starts reading it only 0.5..30 s later, and the announce clauses are judged all the same. non-trivial = the search sent queries and got answers; distinct = distinct order digests";
+const RULE: &str = "one real searcher (read-only or serving, announce port set or not) and 1..1000 ideal-Kademlia stubs (ids uniform / clustered around the target / clustered around the searcher), each holding 0..5 globally unique peers; a random non-empty subset as bootstrap contacts; one-way latency <= 450 ms, no message faults; the search is issued after bootstrap; in 1 run of 6 (>= 10 stubs) a bootstrap contact was restarted under a new, distant id half a minute before the search while the node still holds it under its old id close to the target; in 1 run of 3 one or two further searches for other info-hashes follow 0 ms .. 31 s after the previous one ended; in 1 run of 5 the caller drops the stream early (at once, after 1..1499 ms, after 1..3 items) or starts reading it only 0.5..30 s later, and the announce clauses are judged all the same. non-trivial = the search sent queries and got answers; distinct = distinct order digests";
